@@ -333,6 +333,13 @@ func (c csvCase) shrinks() []tcase {
 		d.Cols = append(d.Cols[:i], d.Cols[i+1:]...)
 		out = append(out, d)
 	}
+	for r, x := range c.Extra {
+		if x {
+			d := c.clone()
+			d.Extra[r] = false
+			out = append(out, d)
+		}
+	}
 	if c.Skip != 0 {
 		d := c.clone()
 		d.Skip = 0
@@ -539,7 +546,14 @@ func enumCSV(p csvPlan, emit func(tcase)) {
 			}
 		})
 	}
-	if p.Big {
-		grid(',', 0, 3, 2, true)
-	}
+}
+
+// enumCSVBig: the full 3 rows x 2 data columns block (12^6 files), enumerated LAST so that a time cap
+// can only cut into this block.
+func enumCSVBig(emit func(tcase)) {
+	allVectors(6, nCellAlpha, func(v []int) {
+		c := csvCase{Delim: ',', TimeCol: "time", Times: append([]string{}, fixedTimes...)}
+		c.Cols = [][]int{append([]int{}, v[:3]...), append([]int{}, v[3:]...)}
+		emit(c)
+	})
 }
